@@ -437,7 +437,7 @@ theorem decodeRunes_runOps (g : List (Gen.GOp Rune)) (hs : ∀ op ∈ g, ScalarO
     segment, the segments being images of rune-level segments -/
 theorem runOps_congr_middle (pre post : List WOp) (hpre : ValidOps pre) (hpost : ValidOps post)
     (m1 m2 : List (Gen.GOp Rune)) (h1 : ∀ op ∈ m1, ScalarOp op) (h2 : ∀ op ∈ m2, ScalarOp op)
-    (hgen : ∀ gpre gpost : List (Gen.GOp Rune), gpre.map encOp = pre →
+    (hgen : ∀ gpre gpost : List (Gen.GOp Rune), gpre.map encOp = pre → (∀ op ∈ gpre, ScalarOp op) →
       Gen.out isSpaceRune (gpre ++ m1 ++ gpost) = Gen.out isSpaceRune (gpre ++ m2 ++ gpost)) :
     runOps (pre ++ m1.map encOp ++ post) = runOps (pre ++ m2.map encOp ++ post) := by
   obtain ⟨gpre, e1, s1⟩ := validOps_lift pre hpre
@@ -451,10 +451,14 @@ theorem runOps_congr_middle (pre post : List WOp) (hpre : ValidOps pre) (hpost :
     · exact s2 op hop
   have e : ∀ m : List (Gen.GOp Rune), pre ++ m.map encOp ++ post = (gpre ++ m ++ gpost).map encOp := by
     intro m; simp [e1, e2]
-  rw [e m1, e m2, runOps_enc _ (hs m1 h1), runOps_enc _ (hs m2 h2), hgen gpre gpost e1]
+  rw [e m1, e m2, runOps_enc _ (hs m1 h1), runOps_enc _ (hs m2 h2), hgen gpre gpost e1 s1]
+
+/-- the trim flag after `ops` (from the initial state) -/
+def twFlagAfter (ops : List WOp) : Bool := (TW.run {} ops).1.trim
 
 theorem flagAfter_enc (g : List (Gen.GOp Rune)) (hs : ∀ op ∈ g, ScalarOp op) :
-    (TW.run {} (g.map encOp)).1.trim = Gen.flagAfter isSpaceRune g := by
+    twFlagAfter (g.map encOp) = Gen.flagAfter isSpaceRune g := by
+  unfold twFlagAfter
   have := run_enc g {} (by simp) hs
   have e0 : encTW {} = ({} : TW) := rfl
   rw [e0] at this
